@@ -312,6 +312,9 @@ def agg_query_text(case):
         if isinstance(kx, str):
             head.append("?" + kx)
             gb.append("?" + kx)
+        elif case.get("anon_keys"):
+            head.append("?" + kx[2])
+            gb.append(f"({gs.expr_text(kx[1])})")  # a bracketed expression without AS: cannot be projected, keys are hidden
         else:
             head.append("?" + kx[2])
             gb.append(f"({gs.expr_text(kx[1])} AS ?{kx[2]})")
@@ -322,7 +325,10 @@ def agg_query_text(case):
     q = f"SELECT {' '.join(head)} WHERE {gs.group_text(case['pattern'])}"
     if gb:
         q += " GROUP BY " + " ".join(gb)
-    if case["having"] is not None:
+    if case["having"] is not None and case["having"][0] == "key":
+        _, kname, op, const = case["having"]
+        q += f" HAVING(?{kname} {op} {gs.term_text(const)})"
+    elif case["having"] is not None:
         i, op, const = case["having"]
         q += f" HAVING({agg_text(case['aggs'][i % len(case['aggs'])])} {op} {gs.term_text(const)})"
     if case["order"]:
@@ -406,7 +412,11 @@ def run_aggs(case):
                     del mu[a[0]]
                 else:
                     mu[a[0]] = w
-        if having is not None:
+        if having is not None and having[0] == "key":
+            # a condition on a grouping key (no aggregate in it), whether or not the key is projected
+            _, kname, op, const = having
+            want = [mu for mu in want if kname in mu and ref.filter_true([op, ["var", kname], ["const", const]], {kname: mu[kname]}, env)]
+        elif having is not None:
             i, op, const = having
             hv = aggs[i % len(aggs)][0]
             kept = []
@@ -469,9 +479,28 @@ def run_aggs(case):
                         out.fail(("aggregate-differs", agg, "distinct" if dist else "all", "wrapped" if len(a) > 5 and a[5] else "bare", "unbound-expected" if wv is None else "value"),
                                  f"{q}\n data={case['data']['default']}\n group {k}: ?{var} = {gv}, expected {wv}")
                         return out
-        if order:
+        if order and case.get("hide_keys") and limit is None:
+            # ORDER BY on grouping keys that are not projected: the expected sequence is determined when no two groups tie
+            import functools
+
+            def cmp(m1, m2):
+                for v, desc in order:
+                    c = ref.order_key_cmp(concrete(m1[v]) if v in m1 else None, concrete(m2[v]) if v in m2 else None)
+                    if c:
+                        return -c if desc else c
+                return 0
+            seq = sorted(want, key=functools.cmp_to_key(cmp))
+            if all(cmp(a, b) != 0 for a, b in zip(seq, seq[1:])):
+                expected = [tuple(norm(concrete(mu[v])) if v in mu else None for v in allv) for mu in seq]
+                if [row_key(r, allv) for r in rows] != expected:
+                    out.fail(("order-by-violated", "key-not-projected"), f"{q}\n data={case['data']['default']}\n got {rows}\n expected order {expected}")
+                    return out
+                out.cls("order-by-hidden-key")
+        elif order:
             for r1, r2 in zip(rows, rows[1:]):
                 for v, desc in order:
+                    if v not in allv:
+                        break  # ordered by a key that is not projected: this pair cannot be judged from the rows
                     try:
                         c = ref.order_key_cmp(r1.get(v), r2.get(v))
                     except ref.Grey:
@@ -489,7 +518,7 @@ def run_aggs(case):
     sizes = Counter(tuple(repr(x) for x in (m.get(k) for k in [kx[1] for kx in gkeys if ref.is_var(kx)])) for m in base)
     out.nontrivial = bool(base) and (any(c >= 2 for c in sizes.values()) or len(sizes) >= 2)
     out.cls("keys:%d" % len(keys), *["agg:" + a[1] for a in aggs], *(["wrapped"] if any(len(a) > 5 and a[5] for a in aggs) else []),
-            *(["expr-key"] if any(not isinstance(k, str) for k in keys) else []), *(["having"] if having is not None else []),
+            *(["expr-key"] if any(not isinstance(k, str) for k in keys) else []), *(["having"] if having is not None else []), *(["having-on-key"] if having is not None and having[0] == "key" else []),
             *(["order-by-alias"] if order else []), *(["limit"] if limit is not None else []), *(["keys-hidden"] if case.get("hide_keys") else []),
             *(["lenient-aggregate-over-error-row"] if lenient_rows else []), "groups:%d" % min(len(want), 4), "max-group:%d" % min(max(sizes.values(), default=0), 4))
     return out
@@ -538,13 +567,90 @@ def agg_cases(draw, tier):
     if draw(st.integers(0, 3)) == 0:
         having = [draw(st.integers(0, 2)), draw(st.sampled_from([">", "<", "=", ">=", "!="])), draw(st.sampled_from(gs.LITS[:3]))]
     names = [k if isinstance(k, str) else k[2] for k in keys] + [a[0] for a in aggs]
+    if keys and draw(st.integers(0, 3)) == 0:
+        kn = names[draw(st.integers(0, len(keys) - 1))]
+        having = ["key", kn, draw(st.sampled_from(["!=", "=", ">", "<"])), draw(st.sampled_from(gs.LITS[:3] + gs.NODES[:2]))]
     order = None
     if draw(st.integers(0, 2)) == 0:
         order = draw(st.lists(st.tuples(st.sampled_from(names), st.booleans()).map(list), min_size=1, max_size=2))
     limit = draw(st.one_of(st.none(), st.none(), st.none(), st.integers(0, 3)))
+    anon = any(not isinstance(k, str) for k in keys) and draw(st.integers(0, 2)) == 0
+    if anon:
+        # the unnamed expression keys cannot be referred to: no HAVING / ORDER BY on them
+        exprnames = {k[2] for k in keys if not isinstance(k, str)}
+        if having is not None and having[0] == "key" and having[1] in exprnames:
+            having = None
+        if order:
+            order = [o for o in order if o[0] not in exprnames] or None
     return {"mode": "aggs", "data": data, "pattern": pat, "keys": keys, "aggs": aggs, "having": having, "order": order, "limit": limit,
-            "hide_keys": bool(keys) and draw(st.integers(0, 4)) == 0}
+            "hide_keys": anon or (bool(keys) and draw(st.integers(0, 3)) == 0), "anon_keys": anon}
 
 
 SUBCHECKS = [Sub("modifiers", lambda tier: cases(tier), run, {"quick": 9000, "thorough": 300000}),
              Sub("aggregates", lambda tier: agg_cases(tier), run_aggs, {"quick": 9000, "thorough": 300000})]
+
+
+# ---------------------------------------------------------------- ordering with ties by value
+TIE_VALUES = [["l", "1", None, ref.INT], ["l", "1.0", None, ref.DEC], ["l", "1.0", None, ref.DBL], ["l", "2", None, ref.INT], ["l", "2.0", None, ref.DEC],
+              ["l", "a", None, None], ["l", "a", None, ref.XSD + "string"], ["u", "urn:a"], ["l", "0", None, ref.INT]]
+
+
+def run_order(case):
+    """rows (?s ?k1 ?k2 ?k3) ordered by 2-3 keys; rows that tie on a key by value but not by identity (1, 1.0, 1.0e0) must be ordered by the later keys"""
+    out = Out()
+    g = Graph()
+    P = [T(["u", "urn:k%d" % i]) for i in range(3)]
+    rows_in = case["rows"]
+    if not rows_in or not case["order"]:
+        return out
+    for i, vals in enumerate(rows_in):
+        s = T(["u", "urn:r%d" % i])
+        for j, v in enumerate(vals):
+            if v is not None:
+                g.add((s, P[j], T(v)))
+    body = "?s <urn:k0> ?k0 . " + " ".join("OPTIONAL { ?s <urn:k%d> ?k%d }" % (j, j) for j in (1, 2))
+    q = "SELECT ?s ?k0 ?k1 ?k2 WHERE { %s } ORDER BY %s" % (body, " ".join(("DESC(?k%d)" if d else "ASC(?k%d)") % j for j, d in case["order"]))
+    res = sut(query, g, q)
+    if is_err(res):
+        out.fail(("query-raises", res.kind, res.site), f"{q}: {res!r}")
+        return out
+    rows = res[1]
+    expect_n = sum(1 for vals in rows_in if vals[0] is not None)
+    if len(rows) != expect_n:
+        out.fail(("order-by-changes-row-count",), f"{q}: {len(rows)} rows, expected {expect_n}")
+        return out
+    tied = False
+    for a, b in zip(rows, rows[1:]):
+        for j, d in case["order"]:
+            x, y = a.get("k%d" % j), b.get("k%d" % j)
+            try:
+                c = ref.order_key_cmp(x, y)
+            except ref.Grey:
+                break
+            if c == 0 and x != y:
+                tied = True
+            if d:
+                c = -c
+            if c < 0:
+                break
+            if c > 0:
+                out.fail(("order-by-violated", "value-tie-on-earlier-key" if tied else "plain", "desc" if d else "asc", "%d-keys" % len(case["order"])),
+                         f"{q}\n rows in={rows_in}\n row {a} is before {b}")
+                return out
+    out.nontrivial = tied
+    out.cls("mode:order", "keys:%d" % len(case["order"]), "same-direction" if len({d for _, d in case["order"]}) == 1 else "mixed-direction", *(["value-tie"] if tied else []))
+    return out
+
+
+@st.composite
+def order_cases(draw, tier):
+    val = st.one_of(st.sampled_from(TIE_VALUES), st.sampled_from(TIE_VALUES[:5]), st.none())
+    rows = draw(st.lists(st.tuples(st.sampled_from(TIE_VALUES[:5] + TIE_VALUES[5:7]), val, val).map(list), min_size=2, max_size=7))
+    n = draw(st.integers(2, 3))
+    same = draw(st.booleans())
+    d0 = draw(st.booleans())
+    order = [[j, d0 if same else draw(st.booleans())] for j in draw(st.permutations([0, 1, 2]))[:n]]
+    return {"mode": "order", "rows": rows, "order": order}
+
+
+SUBCHECKS.append(Sub("ordering", lambda tier: order_cases(tier), run_order, {"quick": 4000, "thorough": 100000}))
